@@ -15,7 +15,7 @@
 (*        Stretch(Stretch(x_i, x_j, z), x_j, 1/z) = x_i.                    *)
 (***************************************************************************)
 EXTENDS LimitMaps
-CONSTANTS EConfigs,     \* set of records [id, n, w, mode, blo, bhi, start]  (start: tuple of w walker tuples, in lattice units)
+CONSTANTS EConfigs,     \* set of records [id, n, w, mode, blo, bhi, start, xl, xw, zs]  (zs: offered stretch draws for this alpha)  (start: tuple of w walker tuples, in lattice units)
           D,            \* positions are integers / D
           Thresholds,   \* energy of a coordinate v (in units): 4 * #{th \in Thresholds : v >= th}
           ZSet,         \* offered stretch draws: set of <<uz_num, uz_den>> with z = (1+uz)^2/2
@@ -28,8 +28,14 @@ RECURSIVE Pow2(_)
 Pow2(k) == IF k = 0 THEN 1 ELSE 2 * Pow2(k - 1)
 RECURSIVE IPow(_, _)
 IPow(b, k) == IF k = 0 THEN 1 ELSE b * IPow(b, k - 1)
-\* z = (1+u)^2/2 with u = a/b  ->  <<(a+b)^2, 2 b^2>>
-ZOf(uz) == <<(uz[1] + uz[2]) * (uz[1] + uz[2]), 2 * uz[2] * uz[2]>>
+\* inverse CDF of g(z) ~ 1/sqrt(z) on [1/alpha, alpha]:  z = 1/2 (xl + xw u)^2 with xl = sqrt(2/alpha), xw = sqrt(2 alpha) - xl
+\* (rational for alpha = 2: xl = 1, xw = 1;  alpha = 8: xl = 1/2, xw = 7/2).  For u = a/b:
+RECURSIVE GcdE(_, _)
+GcdE(a, b) == IF b = 0 THEN a ELSE GcdE(b, a % b)
+ZOf(c, uz) == LET sn == c.xl[1] * c.xw[2] * uz[2] + c.xw[1] * uz[1] * c.xl[2]
+                  sd == c.xl[2] * c.xw[2] * uz[2]
+                  n == sn * sn  d == 2 * sd * sd  g == GcdE(n, d)
+              IN <<n \div g, d \div g>>
 E1(v) == 4 * Cardinality({th \in Thresholds : v >= th * D})
 Energy(c, x) == IF c.n = 1 THEN E1(x[1]) ELSE E1(x[1]) + E1(x[2])
 Post(c, t) == IF c.mode = "box" THEN Reflect(c.blo * D, c.bhi * D, t) ELSE t
@@ -55,7 +61,7 @@ Partner(i, jraw) == ((jraw + (i - 1)) % ec.w) + 1
 NextWalker == /\ iw' = iw + 1 /\ natt' = 0
 WAttempt(jraw, uz, ui) ==
     /\ iter < MaxIter /\ iw <= ec.w
-    /\ LET j == Partner(iw, jraw)  z == ZOf(uz) IN
+    /\ LET j == Partner(iw, jraw)  z == ZOf(ec, uz) IN
        /\ Exact(pos[iw], pos[j], z)
        /\ LET y == [d \in 1..ec.n |-> Post(ec, Stretch(pos[iw], pos[j], z)[d])]
               dE == Energy(ec, y) - wp[iw]
@@ -78,7 +84,7 @@ EndIter == /\ iw = ec.w + 1 /\ iter < MaxIter
            /\ rows' = rows \o pos /\ rowp' = rowp \o wp
            /\ iter' = iter + 1 /\ iw' = 1 /\ natt' = 0
            /\ UNCHANGED <<ec, pos, wp, draws, evals, nretry, nstay, props>>
-ENext == EndIter \/ \E jraw \in 1..(ec.w - 1), uz \in ZSet, ui \in UASet : WAttempt(jraw, uz, ui)
+ENext == EndIter \/ \E jraw \in 1..(ec.w - 1), uz \in (ZSet \cap ec.zs), ui \in UASet : WAttempt(jraw, uz, ui)
 ESpec == EInit /\ [][ENext]_evars
 
 \* ---------------------------------------------------------------- properties
@@ -89,8 +95,8 @@ InsideBox(x) == ec.mode = "box" => \A d \in 1..ec.n : x[d] >= ec.blo * D /\ x[d]
 EInside == (\A i \in 1..ec.w : InsideBox(pos[i])) /\ (\A k \in 1..Len(evals) : InsideBox(evals[k]))    \* C04
 \* stretch involution on every pair of current walkers and every offered z (free configs)
 Involution == ec.mode = "free" =>
-    \A i, j \in 1..ec.w : i # j => \A uz \in ZSet :
-        LET z == ZOf(uz) IN Exact(pos[i], pos[j], z) =>
+    \A i, j \in 1..ec.w : i # j => \A uz \in (ZSet \cap ec.zs) :
+        LET z == ZOf(ec, uz) IN Exact(pos[i], pos[j], z) =>
             LET y == Stretch(pos[i], pos[j], z) IN
               /\ Stretch(y, pos[j], <<z[2], z[1]>>) = pos[i]
               /\ \A d \in 1..ec.n : (y[d] - pos[j][d]) * z[2] = z[1] * (pos[i][d] - pos[j][d])   \* on the line through x_j, ratio z
